@@ -260,20 +260,9 @@ def main(tier: str, only=None) -> int:
     # L2: integer side-condition lemmas on the real check / rewrite functions (CrossHair); kept apart from the S counts
     if not only or only.startswith("c05.lemma") or only == "lemma":
         from vp import xh
-        keep = {k: run.coverage.get(k) for k in ("evaluations", "distinct_nontrivial", "samples")}
-        for k in ("obligations", "discharged", "inconclusive", "evaluations", "distinct_nontrivial", "samples", "crosshair_paths", "crosshair_wall_s"):
-            run.coverage.pop(k, None)
-        xh.run_obligations(run, ["vp.harness.c05_lemmas"], tier, only if only and only != "lemma" else None)
-        lem = {k: run.coverage.pop(k, None) for k in ("obligations", "discharged", "inconclusive", "crosshair_paths", "crosshair_wall_s")}
-        lem["obligation_records"] = run.coverage.pop("samples", [])
-        lem["vacuity_twins_refuted"] = run.coverage.pop("distinct_nontrivial", 0)
-        run.coverage.pop("evaluations", None)
-        lem["explanation"] = ("CrossHair (z3) on the current source of the rules' check / rewrite functions: constants, attributes, static dims "
-                              "and the runtime values of symbolic dims are symbolic integers; postcondition = reference model of the ONNX shape rule")
-        run.coverage["side_condition_lemmas"] = lem
-        run.coverage["obligations"], run.coverage["discharged"] = lem["obligations"] or 0, lem["discharged"] or 0
-        run.coverage.update(keep)
-        run.coverage["samples"] = list(keep["samples"] or []) + lem["obligation_records"][:3]
+        xh.run_side_obligations(run, ["vp.harness.c05_lemmas"], tier, only if only and only != "lemma" else None, "side_condition_lemmas",
+                                "CrossHair (z3) on the current source of the rules' check / rewrite functions: constants, attributes, static dims "
+                                "and the runtime values of symbolic dims are symbolic integers; postcondition = reference model of the ONNX shape rule")
     run.assumptions += ["floats as reals; constants recomputed by a rule are compared under the forward-error bound 32u(mag1+mag2)",
                         "rules.fusion (layer norm, rms norm, rotary, gqa) need sqrt/trig identities: outside the claim",
                         "host structure enumerated per rule family; input values decided by z3"]
